@@ -18,9 +18,11 @@ from props import _c07_common as common
 ID = "C07"
 RULE = ("Stochastic model programs with pub/sub fan-out: C02-style handlers + random delays and observations drawn "
         "from shared seeded streams + handlers that fire one of 4 bus event types to <=5 listeners subscribed in a "
-        "generated order, whose notify scripts draw from the shared streams, schedule events and make observations. "
+        "generated order, whose notify scripts draw from the shared streams, schedule events, make observations and "
+        "subscribe/unsubscribe listeners (handlers do so too). "
         "(i) in-process (Hypothesis): each program is run plain, with a stop()/start() pause after event k, with a "
-        "bounded run, and after unrelated prior activity; digests (executed events, normalised notification stream, "
+        "bounded run, after unrelated prior activity, and as the second replication on the same simulator, model and "
+        "re-seeded stream objects; digests (executed events, normalised notification stream, "
         "stream draws, delivery log, every statistics getter as hex floats) must be identical, and every fire must be "
         "delivered in subscription order. (ii) cross-process (parent_checks): the same batch of programs is executed "
         "by child interpreters under {PYTHONHASHSEED 0,1,4242,random} x {0, 1000 prior SimEvents/EventTypes/objects} "
@@ -44,7 +46,9 @@ def budget(tier):
 
 def _fire_actions(clock):
     base = stoch.stoch_actions(with_stats=True, reinit=False)(clock)
-    return base + [(35, st.tuples(st.just("fire"), st.integers(0, 3)))]
+    return base + [(35, st.tuples(st.just("fire"), st.integers(0, 3))),
+                   (6, st.tuples(st.just("unsub"), st.integers(0, 4), st.integers(0, 3))),
+                   (4, st.tuples(st.just("sub"), st.integers(0, 4), st.integers(0, 3)))]
 
 
 def _listener_script(clock):
@@ -64,6 +68,8 @@ def _listener_script(clock):
         st.tuples(st.just("obs_p_rand"), stream),
         st.tuples(st.just("obs_c"), st.integers(-2, 3)),
         st.tuples(st.just("now"), node, PRIO),
+        st.tuples(st.just("unsub"), st.integers(0, 4), st.integers(0, 3)),
+        st.tuples(st.just("sub"), st.integers(0, 4), st.integers(0, 3)),
     ).map(list)
     return st.lists(one, min_size=1, max_size=3)
 
@@ -125,38 +131,48 @@ def run_case(case):
     out = Outcome()
     out.label("clock=" + case["prog"]["clock"])
     plain = common.run_program(case, ["plain"])
-    # subscription order: every fire is delivered to the subscribers of its type in subscription order
+    # subscription order: every fire is delivered to the listeners subscribed to its type at the moment of
+    # firing, in subscription order (the delivery log also carries the SUB / UNSUB operations of the run)
     nl = len(case["bus"]["listeners"])
-    expect = {}
+    subs = {}
     for li, ti in case["bus"]["order"]:
-        lst = expect.setdefault(ti % 4, [])
+        lst = subs.setdefault(ti % 4, [])
         if li % nl not in lst:
             lst.append(li % nl)
     dl = plain["deliveries"]
-    i = 0
-    while i < len(dl):
-        if dl[i][0] == "FIRE":
-            t = dl[i][1]
-            j = i + 1
-            got = []
-            while j < len(dl) and dl[j][0] != "FIRE":
-                got.append(dl[j][0])
-                if dl[j][1] != t:
-                    out.fail("delivered-to-wrong-type", dl[j])
-                j += 1
-            if got != expect.get(t, []):
-                out.fail("subscription-order", {"type": t, "got": got, "want": expect.get(t, [])})
-                break
-            i = j
+    blocks = []          # [type, expected snapshot, got]
+    stack = []
+    for e in dl:
+        if e[0] == "FIRE":
+            blocks.append([e[1], list(subs.get(e[1], [])), []])
+            stack = [blocks[-1]]
+        elif e[0] == "UNSUB":
+            if e[2] in subs.get(e[1], []):
+                subs[e[1]].remove(e[2])
+                out.label("unsubscribe-during-run")
+        elif e[0] == "SUB":
+            lst = subs.setdefault(e[1], [])
+            if e[2] not in lst:
+                lst.append(e[2])
         else:
-            i += 1
+            if not stack:
+                out.fail("delivery-without-fire", e)
+                break
+            stack[-1][2].append(e[0])
+            if e[1] != stack[-1][0]:
+                out.fail("delivered-to-wrong-type", e)
+    for t, want_l, got_l in blocks:
+        if got_l != want_l:
+            out.fail("subscription-order", {"type": t, "got": got_l, "want": want_l})
+            break
     if any(e[0] == "FIRE" for e in dl):
         out.label("fan-out")
     variants = [("pause", ["pause", case["k"]]), ("bounded", ["bounded", case["frac"]])]
     keep = common.prior_activity(case["prior"])
     variants.append(("after-prior-activity", ["plain"]))
+    variants.append(("second-replication-same-objects", ["plain", "twice"]))
     for name, drive in variants:
-        d = common.run_program(case, drive)
+        d = common.run_program(case, drive[:1] + drive[2:] if drive[-1] == "twice" else drive, twice=drive[-1] == "twice")
         if d != plain:
             out.fail("digest-differs-" + name, _first_diff(plain, d))
             break
